@@ -32,6 +32,10 @@ func FilterScripts() []*scriptref.Node {
 		scriptref.B("==", scriptref.P(), scriptref.C(int64(2))),
 		scriptref.B("||", scriptref.B("==", scriptref.P(scriptref.K("x")), scriptref.C(int64(1))), scriptref.B("==", scriptref.P(scriptref.K("a")), scriptref.C(int64(2)))),
 		scriptref.B("==", scriptref.P(scriptref.K("a"), scriptref.I(0)), scriptref.C(int64(1))),
+		// two multi-valued operands: true if ANY combination is equal (the cross product, not the diagonal)
+		scriptref.B("==", scriptref.P(scriptref.K("a"), scriptref.W()), scriptref.P(scriptref.K("x"), scriptref.W())),
+		// a $-rooted operand: the member of the document, not of the element
+		scriptref.B("==", scriptref.P(scriptref.K("x")), scriptref.RP(scriptref.K("x"))),
 	}
 }
 
@@ -136,6 +140,8 @@ func PathData(maxNodes int) []any {
 		o("a", []any{o("x", i(1)), o("x", i(2)), o("x", i(3), "a", []any{i(1), i(2)})}, "x", o("a", []any{i(1), i(2), i(3), i(4)})),
 		[]any{o("a", []any{i(1)}), o("a", []any{i(2), i(1)}, "x", i(2)), []any{o("x", i(1)), o("x", i(2))}},
 		o("a", o("a", o("a", i(1), "x", i(2)), "x", []any{i(2), i(1)})),
+		[]any{o("a", []any{i(1), i(2)}, "x", []any{i(2), i(3)}), o("a", []any{i(1), i(2)}, "x", []any{i(3), i(4)}), o("a", []any{i(1), i(2), i(3), i(4)}, "x", []any{i(5), i(4)})},
+		o("x", i(2), "a", []any{o("x", i(1)), o("x", i(2)), o("x", i(3))}),
 	)
 	return out
 }
